@@ -225,10 +225,16 @@ def true_facts(summary) -> List[List[Term]]:
             continue
         if is_const(t) and not t[1]:
             continue
-        if is_const(t):
-            out.append(atoms(pc))
-        else:
-            out.append(atoms(tuple(pc) + ((t, True),)))
+        if True:
+            full = tuple(pc) + (() if is_const(t) else ((t, True),))
+            try:
+                cs = cases(full, cap=64)
+            except ValueError:
+                cs = None
+            if cs:
+                out.extend(cs)          # a gated result (a flag assembled over several statements): one fact set per way of being true
+            else:
+                out.append(atoms(full))
     return out
 
 
